@@ -654,6 +654,13 @@ class Interp:
                 if self.truth(self.eq(x, item)):
                     return True
             return False
+        if isinstance(container, (set, frozenset)):
+            if isinstance(item, (SStr, SymInt)):
+                for x in container:
+                    if self.truth(self.eq(x, item)):
+                        return True
+                return False
+            return self.native(lambda: item in container)
         if isinstance(container, (SeqList, ArrList)):
             raise EngineError("membership in symbolic list")
         if isinstance(container, Obj):
@@ -674,7 +681,7 @@ class Interp:
             return v != 0
         if isinstance(v, (int, float)):
             return v != 0
-        if isinstance(v, (str, list, tuple, dict, bytes, bytearray, SStr, range)):
+        if isinstance(v, (str, list, tuple, dict, bytes, bytearray, SStr, range, set, frozenset)):
             return len(v) > 0
         if isinstance(v, (SeqList, ArrList)):
             return v.length() > 0
@@ -860,7 +867,7 @@ class Interp:
             emit(sub)
 
     def iterate(self, it):
-        if isinstance(it, (list, tuple, str, range, dict, bytes, bytearray)):
+        if isinstance(it, (list, tuple, str, range, dict, bytes, bytearray, set, frozenset)):
             return iter(it)
         if isinstance(it, SStr):
             return iter(it)
@@ -923,7 +930,7 @@ class Interp:
             return Builtin("int.from_bytes", self._from_bytes)
         if isinstance(o, (SeqList, ArrList)):
             return NativeMethod(o, name)
-        if o is None or isinstance(o, (str, list, dict, tuple, int, SStr, SymInt, bytes, bytearray, bool, float, _SymBytes)):
+        if o is None or isinstance(o, (str, list, dict, tuple, int, SStr, SymInt, bytes, bytearray, bool, float, _SymBytes, set, frozenset)):
             if isinstance(o, _SymBytes) or hasattr(self._proto(o), name):
                 return NativeMethod(o, name)
             tn = "NoneType" if o is None else type(self._proto(o)).__name__
@@ -1224,6 +1231,9 @@ class Interp:
             "abs": Builtin("abs", lambda x: abs(x)), "min": Builtin("min", self._min), "max": Builtin("max", self._max),
             "chr": Builtin("chr", self._chr), "bool": self.types["bool"], "tuple": self.types["tuple"],
             "sum": Builtin("sum", lambda xs, s=0: self._sum(xs, s)),
+            "set": Builtin("set", lambda xs=(): set(self.iterate(xs))), "frozenset": Builtin("frozenset", lambda xs=(): frozenset(self.iterate(xs))),
+            "sorted": Builtin("sorted", lambda xs: sorted(self.iterate(xs))), "any": Builtin("any", lambda xs: any(self.truth(x) for x in self.iterate(xs))),
+            "all": Builtin("all", lambda xs: all(self.truth(x) for x in self.iterate(xs))),
             "True": True, "False": False, "None": None,
         })
         self.types["int"].fn = _int
@@ -1349,7 +1359,15 @@ class Interp:
             if name == "pop" and args and isinstance(args[0], SymInt):
                 raise EngineError("list.pop symbolic")
             return self.native(getattr(recv, name), *args, **kwargs)
+        if isinstance(recv, set):
+            if self.write_hook is not None and name in ("add", "discard", "remove", "clear", "update", "pop"):
+                self.write_hook(self, recv, name, "set")
+            if args and isinstance(args[0], (SStr, SymInt)):
+                raise EngineError("set.%s with a symbolic element" % name)
+            return self.native(getattr(recv, name), *args, **kwargs)
         if isinstance(recv, dict):
+            if self.write_hook is not None and name in ("setdefault", "pop", "update", "clear", "popitem"):
+                self.write_hook(self, recv, name, "dict")
             if name in ("items", "keys", "values", "get", "setdefault", "pop", "update", "copy"):
                 if name == "items":
                     return [(_unskey(k), v) for k, v in recv.items()]
